@@ -61,6 +61,8 @@ package har
 //@   at call 0 of IsZero before set ckN0 = ckNFormat
 //@   at call 0 of append before assert[expiry-text-is-computed-from-this-cookie] (expires == "" && ckNFormat == ckN0) || (expires == ckFormatted && ckNFormat == ckN0 + 1)
 //@   ensures[one-entry-per-cookie] len(result) == len(cs)
+//@   at call 0 of append before assert[every-field-of-the-entry-is-the-like-named-field-of-the-cookie] len(arg1) == 1 && arg1[0].Name == c.Name && arg1[0].Value == c.Value && arg1[0].Path == c.Path &&
+//@        arg1[0].Domain == c.Domain && arg1[0].HTTPOnly == c.HttpOnly && arg1[0].Secure == c.Secure
 //@ extern func proxyutil.RequestHeader
 //@   ensures result != nil
 //@ extern func proxyutil.ResponseHeader
@@ -338,3 +340,21 @@ package har
 //@   requires res != nil
 //@   ensures[skipped-exactly-when-the-content-type-has-a-configured-prefix] result == !ctMatch(res.Header, cts)
 //@   loop 0 invariant forall i int :: 0 <= i && i <= rangeindex && i < len(cts) ==> !strings.HasPrefix(strings.ToLower(firstHdr(res.Header, "Content-Type")), strings.ToLower(cts[i]))
+
+// C17: the reset endpoint. With return=true the completed entries are exported and removed and the pending ones stay
+// (ExportAndReset); only without it the whole log is dropped (Reset). Never both in one request.
+//@ ghost var rhExported bool
+//@ func parseBoolQueryParam
+//@   trusted
+//@   modifies nothing
+//@ extern func json.NewEncoder
+//@   ensures result != nil
+//@ extern func (*json.Encoder).Encode
+//@ func (*resetHandler).ServeHTTP
+//@   serves C17
+//@   requires h != nil && h.logger != nil && req != nil && req.URL != nil && rw != nil && harInv(h.logger) && !h.logger.mu.held
+//@   modifies rhExported
+//@   noframe
+//@   at entry 0 before set rhExported = false
+//@   at call 0 of ExportAndReset after set rhExported = true
+//@   at call all of Reset before assert[an-export-and-reset-keeps-the-pending-entries-no-plain-reset-follows] !rhExported
